@@ -3,21 +3,38 @@
 (* One action per API call; an action is enabled exactly for the observations the documented contract allows.           *)
 EXTENDS UniLifeDefs
 
-(* ---- the state machine ---- *)
-VARIABLES phase,   \* "none" | "idle" | "func" | "final"
-          feats,   \* the feature record given at construction
-          vw,      \* -1 or the width given to init_vec_width
-          nfunc    \* finished functions
+(* ---- the state machine ----                                                                                         *)
+(* The state is one record s = [phase, feats, vw, nfunc]; every API call is an event record e (arguments + what the     *)
+(* harness observed after the call).  StepOk(s, e) says whether the documented contract allows the observation in      *)
+(* state s, StepTo(s, e) is the successor state.  The actions below are the TLA+ state machine; UniLifeObs.tla folds     *)
+(* the same two operators over recorded executions (pointwise evaluation of whole executions).                          *)
+S0 == [phase |-> "none", feats |-> [avx |-> FALSE], vw |-> -1, nfunc |-> 0]
 
-lvars == <<phase, feats, vw, nfunc>>
-LInit == phase = "none" /\ feats = [avx |-> FALSE] /\ vw = -1 /\ nfunc = 0
+StepOk(s, e) ==
+  CASE e.e = "New"          -> s.phase = "none" /\ NewOk(e)
+    [] e.e = "InitVecWidth" -> s.phase = "idle" /\ e.w \in 0..MaxVecWidth(s.feats) /\ VecWidthOk(e)
+    [] e.e = "AddFunc"      -> s.phase = "idle" /\ s.vw >= 0 /\ e.o_hook /\ e.o_avx = HasAvx(s.feats) /\ e.o_avx512 = HasAvx512(s.feats)
+    [] e.e = "Use"          -> s.phase = "func" /\ e.o_hook
+    [] e.e = "EndFunc"      -> s.phase = "func" /\ ~e.o_hook /\ SeqOk(e.seq)
+    [] e.e = "Finalize"     -> s.phase = "idle" /\ e.ok /\ e.nfunc = s.nfunc
+    [] e.e = "Run"          -> s.phase = "final" /\ e.sig = 0
+    [] OTHER                -> FALSE
+StepTo(s, e) ==
+  CASE e.e = "New"          -> [s EXCEPT !.phase = "idle", !.feats = e]
+    [] e.e = "InitVecWidth" -> [s EXCEPT !.vw = e.w]
+    [] e.e = "AddFunc"      -> [s EXCEPT !.phase = "func"]
+    [] e.e = "EndFunc"      -> [s EXCEPT !.phase = "idle", !.nfunc = s.nfunc + 1]
+    [] e.e = "Finalize"     -> [s EXCEPT !.phase = "final"]
+    [] OTHER                -> s
 
-New(e)          == phase = "none" /\ NewOk(e) /\ phase' = "idle" /\ feats' = e /\ UNCHANGED <<vw, nfunc>>
-InitVecWidth(e) == phase = "idle" /\ e.w \in 0..MaxVecWidth(feats) /\ VecWidthOk(e) /\ vw' = e.w /\ UNCHANGED <<phase, feats, nfunc>>
-AddFunc(e)      == phase = "idle" /\ vw >= 0 /\ e.o_hook /\ e.o_avx = HasAvx(feats) /\ e.o_avx512 = HasAvx512(feats)
-                   /\ phase' = "func" /\ UNCHANGED <<feats, vw, nfunc>>
-Use(e)          == phase = "func" /\ e.o_hook /\ UNCHANGED lvars
-EndFunc(e)      == phase = "func" /\ ~e.o_hook /\ SeqOk(e.seq) /\ phase' = "idle" /\ nfunc' = nfunc + 1 /\ UNCHANGED <<feats, vw>>
-Finalize(e)     == phase = "idle" /\ e.ok /\ e.nfunc = nfunc /\ phase' = "final" /\ UNCHANGED <<feats, vw, nfunc>>
-Run(e)          == phase = "final" /\ e.sig = 0 /\ UNCHANGED lvars
+VARIABLE s
+LInit == s = S0
+Act(e)          == StepOk(s, e) /\ s' = StepTo(s, e)
+New(e)          == e.e = "New" /\ Act(e)
+InitVecWidth(e) == e.e = "InitVecWidth" /\ Act(e)
+AddFunc(e)      == e.e = "AddFunc" /\ Act(e)
+Use(e)          == e.e = "Use" /\ Act(e)
+EndFunc(e)      == e.e = "EndFunc" /\ Act(e)
+Finalize(e)     == e.e = "Finalize" /\ Act(e)
+Run(e)          == e.e = "Run" /\ Act(e)
 =============================================================================
